@@ -130,6 +130,78 @@ def shrink_candidates(c):
             yield dict(c, world=dict(wd, layers=layers))
 
 
+class Runs:
+    """Whole runs: the order of the 'Running <layer> tests:' headers, after an earlier run of a different program state in the same
+    interpreter and in a fresh interpreter."""
+    CHK = CHK
+    LABEL = 'runs'
+    IMPORTS = IMPORTS
+    SHARD = 40
+    RULE = ('runs batch: worlds of 2..5 layers run twice - in a fresh interpreter, and in an interpreter that has just run ANOTHER world '
+            'with the same layer names and different base relations (module dropped and re-imported in between); the order of the '
+            '"Running <layer> tests:" headers of both is compared with the model and with each other')
+    EXHAUSTIVE = {}
+
+    def generate(self, rng, tier, rep):
+        import worldcase
+        n = {'quick': 24, 'thorough': 240, 'search': 24}[tier]
+        cases = []
+        for k in range(n):
+            nl = rng.randint(2, 5)
+            names = rng.sample(worldcase.LNAMES, nl)
+
+            def graph():
+                ls = []
+                for i in range(nl):
+                    cand = list(range(i))
+                    ls.append({'name': None, 'bases': rng.sample(cand, min(len(cand), rng.choice([0, 1, 1, 2]))), 'kind': 'instance',
+                               'hooks': {'setUp': ['ok'], 'tearDown': ['ok']}})
+                return ls
+            a, b = graph(), graph()
+            # the same names, attached to the nodes in a different order
+            pa, pb = list(names), list(names)
+            rng.shuffle(pa)
+            rng.shuffle(pb)
+            for i in range(nl):
+                a[i]['name'], b[i]['name'] = pa[i], pb[i]
+            tests_b = [{'layer': j} for j in rng.sample(range(nl), rng.randint(2, nl))]
+            tests_a = [{'layer': j} for j in range(nl)]
+            cases.append({'module': 'vcten_%d_%d' % (k, rng.randint(0, 10 ** 6)),
+                          'a': {'layers': a, 'tests': tests_a, 'options': []}, 'b': {'layers': b, 'tests': tests_b, 'options': []}})
+            rep.count('runs layers=%d' % nl)
+        return cases
+
+    def observe(self, cases):
+        import worldrun
+
+        def one(ic):
+            i, c = ic
+            fresh = worldrun.run_world(dict(c['b'], module=c['module']), idx=2 * i)
+            warm = worldrun.run_world(dict(c['b'], module=c['module'], warmup_world=c['a']), idx=2 * i + 1)
+
+            def order(o):
+                names = worldrun.parse_stdout(o.get('stdout', ''))['running']
+                idx = {'%s.%s' % (c['module'], L['name']): j for j, L in enumerate(c['b']['layers'])}
+                return [idx.get(nm, 99) for nm in names if nm in idx or not nm.endswith('UnitTests')]
+            return {'r_warm': order(warm), 'r_fresh': order(fresh), 'aborted': [warm.get('aborted'), fresh.get('aborted')]}
+        return fw.parallel_map(one, list(enumerate(cases)))
+
+    def to_coq(self, c, o):
+        wd = {'layers': [{'name': '%s.%s' % (c['module'], L['name']), 'bases': L['bases']} for L in c['b']['layers']], 'unit': None}
+        # discovery order of the layers that own tests: the order in which the test classes are found (class names C000, C001, …)
+        ls = sorted(set(T['layer'] for T in c['b']['tests']))
+        return '{| w := %s; ls := %s; ls2 := %s; r1 := %s; r2 := %s |}' % (
+            g_world(wd), g_nats(ls), g_nats(ls), g_nats(o['r_warm']), g_nats(o['r_fresh']))
+
+    def nontrivial(self, c):
+        return any(L['bases'] for L in c['b']['layers'])
+
+    def shrink_candidates(self, c):
+        return []
+
+
+EXTRA_BATCHES = [Runs()]
+
 TECHNIQUE = ('Coq proofs about a Gallina transcription of gather_layers/layer_sort_key/order_by_bases '
              '(LayersFacts.v, P_C10.v) + correspondence check against runner.order_by_bases')
 LEVEL_TEXT = ('Unbounded theorems: permutation invariance of the result (under distinct sort keys, themselves proved from '
